@@ -132,22 +132,23 @@ example : (construct true false [0xB#64] 6 (.csPoppy 3)).map (fun I => I.firstCh
 /-- `trees::find_close(words, len, p)` = the matching close of the open at `p` by the left-to-right
 excess scan over the first `len` bits; `none` for `p ≥ len`, a close at `p`, or no match. Covers the
 in-word kernel, the partial first word, skipping of whole words by `word_min_excess_i32` (byte
-tables) and the masked final word, for every `|ws| = ⌈len/64⌉` with any bits above `len`;
-`len < 2^31` so that the `i32` running excess cannot wrap. (Surplus whole words beyond
-`⌈len/64⌉` are outside this domain: finding F1.) -/
-theorem find_close_eq (ws : List (BitVec 64)) (len p : Nat) (hw : ws.length = (len + 63) / 64)
+tables) and the masked final word, for every `|ws| ≥ ⌈len/64⌉` — surplus whole words beyond
+`⌈len/64⌉` are allowed (finding F1, repaired: the scan stops at the first word lying wholly beyond
+`len`) — with any bits above `len`; `len < 2^31` so that the `i32` running excess cannot wrap. -/
+theorem find_close_eq (ws : List (BitVec 64)) (len p : Nat) (hw : (len + 63) / 64 ≤ ws.length)
     (hlen : len < 2 ^ 31) :
     freeFindClose ws.toArray len p = BP.findClose (bitsOf ws len) p :=
   BPC.freeFindClose_eq ws len p hw hlen
 
 example : freeFindClose #[0xFFFFFFFFFFFFFFCB#64] 6 0 = some 5 := by decide +kernel
 example : freeFindClose #[0xFFFFFFFF#64, 0x0#64] 96 0 = some 63 := by decide +kernel
+example : freeFindClose #[0x1#64, 0x0#64] 1 0 = none := by decide +kernel
 
 /-- `trees::find_open(words, len, p)` = the matching open of the close at `p` by the right-to-left
 scan; no bound on `len` is needed beyond `|ws| = ⌈len/64⌉` (the model's excess is unbounded here:
 for `len ≥ 2^31` the code's `i32` could wrap, which the statement does not cover — see the
 `freeFindOpen` model, which uses exact integers). -/
-theorem find_open_eq (ws : List (BitVec 64)) (len p : Nat) (hw : ws.length = (len + 63) / 64) :
+theorem find_open_eq (ws : List (BitVec 64)) (len p : Nat) (hw : (len + 63) / 64 ≤ ws.length) :
     freeFindOpen ws.toArray len p = BP.findOpen (bitsOf ws len) p :=
   BPS.freeFindOpen_eq ws len p hw
 
@@ -155,7 +156,7 @@ example : freeFindOpen #[0xFFFFFFFFFFFFFFCB#64] 6 5 = some 0 := by decide +kerne
 
 /-- `trees::enclose(words, len, p)` = the nearest enclosing open (parent) by the right-to-left scan,
 including the skipping of whole words by `word_max_excess_rev`. -/
-theorem enclose_eq (ws : List (BitVec 64)) (len p : Nat) (hw : ws.length = (len + 63) / 64)
+theorem enclose_eq (ws : List (BitVec 64)) (len p : Nat) (hw : (len + 63) / 64 ≤ ws.length)
     (hlen : len < 2 ^ 31) :
     freeEnclose ws.toArray len p = BP.enclose (bitsOf ws len) p :=
   BPS.freeEnclose_eq ws len p hw hlen
